@@ -67,6 +67,24 @@ def _design(rng, n, p, kind):
     return [[1.0 if i == j else 0.0 for j in range(p)] for i in range(n)]
 
 
+def _presented(A, dtype=None, layout=None):
+    """the same numbers as the caller may hold them: in an integer / float32 dtype when they are exactly
+    representable there, Fortran-ordered or as a strided view"""
+    A = np.asarray(A, float)
+    out = A
+    if dtype:
+        B = A.astype(dtype)
+        if np.array_equal(B.astype(float), A):
+            out = B
+    if layout == "F":
+        out = np.asfortranarray(out)
+    elif layout == "strided" and out.ndim == 2:
+        big = np.zeros((out.shape[0], 2 * out.shape[1]), dtype=out.dtype)
+        big[:, ::2] = out
+        out = big[:, ::2]
+    return out
+
+
 def _data(rng, n, v, kind):
     if kind == "int":
         return [[float(rng.randint(-6, 6)) for _ in range(v)] for _ in range(n)]
@@ -542,6 +560,13 @@ class C05(PropertyCheck):
                 p = min(p, 4)
             X = _design(rng, n, p, dk)
             Y = _data(rng, n, v, rng.choice(["int", "dyadic", "smooth"]))
+            pres = {}
+            if rng.random() < 0.35:
+                # (float32 is left out: the model classes then compute in single precision, which is rounding,
+                # not a different fit)
+                pres = {"ydtype": rng.choice(["int16", "int32", "int64", "uint8", "int8", None]),
+                        "xdtype": rng.choice([None, None, "int64", "int16", "int8"]),
+                        "ylayout": rng.choice([None, None, "F", "strided"])}
             if wk == "ols":
                 w = {"kind": "ols"}
             elif wk == "wls":
@@ -583,9 +608,10 @@ class C05(PropertyCheck):
                 Cm = Cm + np.array([[rng.randint(-1, 1) for _ in range(p)] for _ in range(q)])
                 if _rank(Cm) < q:
                     Cm = np.eye(p)[:q]
-            cases.append({"kind": "models", "X": X, "Y": Y, "w": w, "c": c, "C": Cm.tolist(),
-                          "T": _invertible(rng, p), "sel": [rng.randrange(v) for _ in range(rng.randint(1, v + 1))],
-                          "scale": rng.choice([2.0, 0.5, 3.0, 10.0, 0.125])})
+            cases.append(dict({"kind": "models", "X": X, "Y": Y, "w": w, "c": c, "C": Cm.tolist(),
+                               "T": _invertible(rng, p),
+                               "sel": [rng.randrange(v) for _ in range(rng.randint(1, v + 1))],
+                               "scale": rng.choice([2.0, 0.5, 3.0, 10.0, 0.125])}, **pres))
         for _ in range(ne):
             n, p, v = _sizes(rng, tier)
             dk = rng.choice(["int", "intercept", "dyadic", "ill", "drift"])
@@ -733,12 +759,15 @@ class C05(PropertyCheck):
         X = np.array(case["X"], float); Y = np.array(case["Y"], float)
         n, p = X.shape; v = Y.shape[1]
         w = case["w"]; c = case["c"]; Cm = np.array(case["C"], float)
-        snap = Snapshot(X=X, Y=Y)
+        # how the caller stores its data: integer counts / raw scanner units in an integer dtype, float32, Fortran
+        # order or a strided view hold the same numbers; the fit is a function of the numbers
+        Xp, Yp = _presented(X, case.get("xdtype")), _presented(Y, case.get("ydtype"), case.get("ylayout"))
+        snap = Snapshot(X=Xp, Y=Yp)
         tags = ["models", "w=" + w["kind"], f"p={min(p, 4)}{'+' if p > 4 else ''}",
-                "n-p=1" if n - p == 1 else "n-p>1"]
+                "n-p=1" if n - p == 1 else "n-p>1", f"y={Yp.dtype}", f"x={Xp.dtype}"]
         try:
-            m = _make_model(reg, w, X)
-            res = m.fit(Y)
+            m = _make_model(reg, w, Xp)
+            res = m.fit(Yp)
             obs = self._sections(res, X, c, Cm)
         except Exception as e:
             return {"lines": [], "impl": [], "nontrivial": True, "tags": tags + ["raised"],
